@@ -103,11 +103,13 @@ Init ==
 
 Step(G, h) == qry = NoQuery /\ grp' = G /\ hist' = Append(hist, h) /\ qry' = NoQuery
 
-ActH  == \E q \in Q : Step(ApplyGate(grp, "H", <<q>>), <<"H", q>>)
-ActS  == \E q \in Q : Step(ApplyGate(grp, "S", <<q>>), <<"S", q>>)
+ActH  == \E q \in Q : qry = NoQuery /\ Step(ApplyGate(grp, "H", <<q>>), <<"H", q>>)
+ActS  == \E q \in Q : qry = NoQuery /\ Step(ApplyGate(grp, "S", <<q>>), <<"S", q>>)
 ActCX == \E c, t \in Q : c # t /\ Step(ApplyGate(grp, "CX", <<c, t>>), <<"CX", c, t>>)
 ActCZ == \E c, t \in Q : c < t /\ Step(ApplyGate(grp, "CZ", <<c, t>>), <<"CZ", c, t>>)
-ActRelabel == \E p \in Perms : Step(Relabel(grp, p), <<"PERM">> \o [i \in Q |-> p[i]])
+Transpositions == {x \in Perms : \E i \in Q : x[i] # i /\ x[x[i]] = i /\ \A j \in Q \ {i, x[i]} : x[j] = j}
+RelabelSet == IF HeavyLaws THEN Perms ELSE Transpositions
+ActRelabel == \E p \in RelabelSet : qry = NoQuery /\ Step(Relabel(grp, p), <<"PERM">> \o [i \in Q |-> p[i]])
 ActMeasure ==
   /\ WithMixed
   /\ \E q \in Q, m \in 0..1 :
@@ -124,7 +126,7 @@ Ask(m, A, B, ref, impl) ==
 
 QEntropySubsys == IsPure(grp, N) /\ \E A \in Subsets \ {{}} :
                     Ask("entropy_subsys", A, {}, Ent(grp, A), ImplEntropySubsys(grp, A))
-QMutinf        == \E A \in Proper :
+QMutinf        == WithQueries /\ \E A \in Proper :
                     Ask("mutinf", A, Compl(A), MutInf(grp, A, Compl(A)),
                         IF IsPure(grp, N) THEN ImplMutinfKet(grp, A) ELSE ImplMutinfDop(grp, A))
 QMutinfSubsys  == IsPure(grp, N) /\ \E ab \in DisjPairs :
@@ -203,7 +205,7 @@ L_LocalInvariance ==
 
 \* covariance under relabelling of the subsystems
 L_RelabelCovariance ==
-  \A p \in (IF HeavyLaws THEN Perms ELSE {x \in Perms : \E i \in Q : x[i] # i /\ x[x[i]] = i /\ \A j \in Q \ {i, x[i]} : x[j] = j}) :
+  \A p \in RelabelSet :
     LET G2 == Relabel(grp, p) IN
     \A ab \in DisjPairs :
        /\ Ent(G2, Image(p, ab[1])) = Ent(grp, ab[1])
